@@ -84,6 +84,14 @@ func (i *Iterations) Reset() {
 	i.pending = false
 }
 
+// DropUnused forgets the count of a numeric argument that is
+// not active anymore: the last command did not make use of it.
+func (i *Iterations) DropUnused() {
+	if !i.active && !i.pending {
+		i.times = ""
+	}
+}
+
 // ResetPostRunIterations resets the iterations if the last command didn't set them.
 // If the reset operated on active iterations, this function returns true.
 func ResetPostRunIterations(iter *Iterations) (hint string) {
